@@ -254,22 +254,63 @@ impl QueryFilter {
         }
     }
 
-    /// Extract predicates from an expression recursively
+    /// Extract predicates from an expression recursively.
+    ///
+    /// The result is a list of conjuncts: a top-level AND contributes one entry per side, a
+    /// disjunction stays one `ColumnPredicate::Or` tree (its comparisons must not be applied
+    /// as independent filters).
     fn extract_predicates_from_expr(expr: &Expr, predicates: &mut Vec<ColumnPredicate>) {
         match expr {
-            Expr::BinaryOp { left, op, right } => {
-                if let Some(pred) = Self::try_extract_comparison(left, op, right) {
-                    predicates.push(pred);
-                }
-                if matches!(op, BinaryOperator::And | BinaryOperator::Or) {
-                    Self::extract_predicates_from_expr(left, predicates);
-                    Self::extract_predicates_from_expr(right, predicates);
-                }
+            Expr::BinaryOp {
+                left,
+                op: BinaryOperator::And,
+                right,
+            } => {
+                Self::extract_predicates_from_expr(left, predicates);
+                Self::extract_predicates_from_expr(right, predicates);
             }
             Expr::Nested(inner) => {
                 Self::extract_predicates_from_expr(inner, predicates);
             }
-            _ => {}
+            other => {
+                if let Some(pred) = Self::expr_to_predicate(other) {
+                    predicates.push(pred);
+                }
+            }
+        }
+    }
+
+    /// Convert an expression into a predicate tree; `None` if it cannot be used as a filter.
+    fn expr_to_predicate(expr: &Expr) -> Option<ColumnPredicate> {
+        match expr {
+            Expr::Nested(inner) => Self::expr_to_predicate(inner),
+            Expr::BinaryOp {
+                left,
+                op: BinaryOperator::And,
+                right,
+            } => {
+                // An unsupported side of a conjunction is dropped (the filter stays a superset)
+                match (
+                    Self::expr_to_predicate(left),
+                    Self::expr_to_predicate(right),
+                ) {
+                    (Some(l), Some(r)) => Some(ColumnPredicate::And(Box::new(l), Box::new(r))),
+                    (Some(p), None) | (None, Some(p)) => Some(p),
+                    (None, None) => None,
+                }
+            }
+            Expr::BinaryOp {
+                left,
+                op: BinaryOperator::Or,
+                right,
+            } => {
+                // A disjunction can only filter if both sides are understood
+                let l = Self::expr_to_predicate(left)?;
+                let r = Self::expr_to_predicate(right)?;
+                Some(ColumnPredicate::Or(Box::new(l), Box::new(r)))
+            }
+            Expr::BinaryOp { left, op, right } => Self::try_extract_comparison(left, op, right),
+            _ => None,
         }
     }
 
@@ -327,6 +368,22 @@ impl QueryFilter {
     /// Parse a SQL AST value expression into a PredicateValue
     fn parse_sql_value(val_expr: &Expr) -> Option<PredicateValue> {
         match val_expr {
+            // Signed numeric literals: -3, +1.5
+            Expr::UnaryOp {
+                op: sqlparser::ast::UnaryOperator::Minus,
+                expr,
+            } => match Self::parse_sql_value(expr)? {
+                PredicateValue::Int64(i) => i.checked_neg().map(PredicateValue::Int64),
+                PredicateValue::Float64(f) => Some(PredicateValue::Float64(-f)),
+                _ => None,
+            },
+            Expr::UnaryOp {
+                op: sqlparser::ast::UnaryOperator::Plus,
+                expr,
+            } => match Self::parse_sql_value(expr)? {
+                v @ (PredicateValue::Int64(_) | PredicateValue::Float64(_)) => Some(v),
+                _ => None,
+            },
             Expr::Value(v) => match v {
                 Value::SingleQuotedString(s) | Value::DoubleQuotedString(s) => {
                     Some(PredicateValue::String(s.to_string()))
@@ -499,15 +556,21 @@ impl QueryFilter {
                 if let Some(arr) = column.as_primitive_opt::<arrow_array::types::Int64Type>() {
                     for (i, val_opt) in arr.iter().enumerate() {
                         if mask[i] {
-                            mask[i] = match (pred, val_opt) {
-                                (ColumnPredicate::Eq(..), Some(v)) => v == *expected,
-                                (ColumnPredicate::NotEq(..), Some(v)) => v != *expected,
-                                (ColumnPredicate::Lt(..), Some(v)) => v < *expected,
-                                (ColumnPredicate::LtEq(..), Some(v)) => v <= *expected,
-                                (ColumnPredicate::Gt(..), Some(v)) => v > *expected,
-                                (ColumnPredicate::GtEq(..), Some(v)) => v >= *expected,
-                                _ => false,
-                            };
+                            mask[i] =
+                                Self::ordering_satisfies(pred, val_opt.map(|v| v.cmp(expected)));
+                        }
+                    }
+                } else if let Some(arr) =
+                    column.as_primitive_opt::<arrow_array::types::Float64Type>()
+                {
+                    // Integer literal against a float column: compare as floats, like the engine
+                    let expected = *expected as f64;
+                    for (i, val_opt) in arr.iter().enumerate() {
+                        if mask[i] {
+                            mask[i] = Self::ordering_satisfies(
+                                pred,
+                                val_opt.and_then(|v| v.partial_cmp(&expected)),
+                            );
                         }
                     }
                 }
@@ -516,24 +579,42 @@ impl QueryFilter {
                 if let Some(arr) = column.as_primitive_opt::<arrow_array::types::Float64Type>() {
                     for (i, val_opt) in arr.iter().enumerate() {
                         if mask[i] {
-                            mask[i] = match (pred, val_opt) {
-                                (ColumnPredicate::Eq(..), Some(v)) => {
-                                    (v - expected).abs() < f64::EPSILON
-                                }
-                                (ColumnPredicate::NotEq(..), Some(v)) => {
-                                    (v - expected).abs() >= f64::EPSILON
-                                }
-                                (ColumnPredicate::Lt(..), Some(v)) => v < *expected,
-                                (ColumnPredicate::LtEq(..), Some(v)) => v <= *expected,
-                                (ColumnPredicate::Gt(..), Some(v)) => v > *expected,
-                                (ColumnPredicate::GtEq(..), Some(v)) => v >= *expected,
-                                _ => false,
-                            };
+                            mask[i] = Self::ordering_satisfies(
+                                pred,
+                                val_opt.and_then(|v| v.partial_cmp(expected)),
+                            );
+                        }
+                    }
+                } else if let Some(arr) =
+                    column.as_primitive_opt::<arrow_array::types::Int64Type>()
+                {
+                    // Float literal against an integer column: compare as floats, like the engine
+                    for (i, val_opt) in arr.iter().enumerate() {
+                        if mask[i] {
+                            mask[i] = Self::ordering_satisfies(
+                                pred,
+                                val_opt.and_then(|v| (v as f64).partial_cmp(expected)),
+                            );
                         }
                     }
                 }
             }
             _ => {} // Boolean/Null: no-op for streaming filters
+        }
+    }
+
+    /// Does a comparison outcome (None = NULL or unordered) satisfy the comparison predicate?
+    fn ordering_satisfies(pred: &ColumnPredicate, ordering: Option<std::cmp::Ordering>) -> bool {
+        use std::cmp::Ordering::*;
+        match (pred, ordering) {
+            (_, None) => false,
+            (ColumnPredicate::Eq(..), Some(o)) => o == Equal,
+            (ColumnPredicate::NotEq(..), Some(o)) => o != Equal,
+            (ColumnPredicate::Lt(..), Some(o)) => o == Less,
+            (ColumnPredicate::LtEq(..), Some(o)) => o != Greater,
+            (ColumnPredicate::Gt(..), Some(o)) => o == Greater,
+            (ColumnPredicate::GtEq(..), Some(o)) => o != Less,
+            _ => false,
         }
     }
 
